@@ -380,7 +380,7 @@ impl Version {
             let root = self.options.path.clone();
             let setsum = Setsum::from_digest(sst.setsum);
             let lazy = move || lazy_cursor(&fm, &sc, &root, setsum);
-            cursors.push(Box::new(PruningCursor::new(
+            cursors.push(Box::new(PruningCursor::with_tombstones(
                 LazyCursor::new(lazy),
                 timestamp,
             )?));
@@ -421,7 +421,10 @@ impl Version {
                     let root = self.options.path.clone();
                     let setsum = Setsum::from_digest(sst.setsum);
                     let lazy = move || lazy_cursor(&fm, &sc, &root, setsum);
-                    this_level_cursors.push(PruningCursor::new(LazyCursor::new(lazy), timestamp)?);
+                    this_level_cursors.push(PruningCursor::with_tombstones(
+                        LazyCursor::new(lazy),
+                        timestamp,
+                    )?);
                 }
             }
             if !this_level_cursors.is_empty() {
